@@ -97,6 +97,9 @@ def main():
                                  artifact=j.get("artifact"), path=path))
 
     # ---- generated campaigns
+    if a.only and not any(a.only in (p.get("harness"), p.get("name")) for p in parts):
+        print(f"HARNESS-PROBLEM property={prop} --only {a.only}: no such part (have: " + ", ".join(p.get("harness") or p.get("name") for p in parts) + ")")
+        return 3
     for p in parts:
         if a.only and a.only not in (p.get("harness"), p.get("name")):
             continue
